@@ -704,7 +704,15 @@ func cmdReplay(args []string) int {
 		fmt.Println("INFRASTRUCTURE-ERROR: no replay for property", id)
 		return 2
 	}
+	if os.Getenv("VERIF_DEBUG") != "" {
+		kernel.KeepLogs = true
+	}
 	o := safeRun(func() *Outcome { return p.Replay(tr) })
+	if os.Getenv("VERIF_DEBUG") != "" {
+		for _, l := range kernel.GlobalLog {
+			fmt.Println(l)
+		}
+	}
 	if o.InfraErr != nil {
 		fmt.Println("INFRASTRUCTURE-ERROR:", o.InfraErr)
 		return 2
